@@ -132,8 +132,14 @@ abbrev K4 (s : S) : Prop := nLog s.trace = if s.cleaned then 1 else 0
 abbrev K5 (s : S) : Prop := s.procDone = true → s.cleaned = true
 /-- K6: a dead downstream stream was noticed -/
 abbrev K6 (s : S) : Prop := s.downLive = false → s.downReset = true ∨ s.cleaned = true
-/-- K7: `setupRetry` and `directResponse` are consumed within the step that sets them -/
-abbrev K7 (s : S) : Prop := s.cleaned = false → s.setupRetry = false ∧ s.direct = false
+/-- the state between an accepted asynchronous `TerminateStream` and the wake-up of the parked worker: the local reply
+is stored, the upstream request is reset, both timers are stopped -/
+abbrev Term (s : S) : Prop :=
+  s.phase = .WaitNotify ∧ s.notify = true ∧ s.urr = true ∧ s.upReset = false ∧ s.resp.isSome = true ∧
+  liveCount s.streams = 0 ∧ s.perTry = false ∧ s.global = false
+/-- K7: `setupRetry` and `directResponse` are consumed within the step that sets them; only `TerminateStream` leaves a
+local reply pending for the parked worker -/
+abbrev K7 (s : S) : Prop := s.cleaned = false → s.setupRetry = false ∧ (s.direct = true → Term s)
 /-- K8: the loop budget is never used up -/
 abbrev K8 (s : S) : Prop := s.cleaned = false → s.pass ≤ 1 ∧ (s.pass = 0 ∨ upPhase s.phase = true ∨ s.phase = .Oneway)
 /-- K9..K12: ledger -/
@@ -163,7 +169,7 @@ abbrev K18 (c : Cfg) (s : S) : Prop := s.cleaned = false → fwdPhase s.phase = 
   (s.up.isSome = true ∧ s.rs.isSome = true ∧
    ((s.urr = true ∨ s.upReset = true ∨ s.downReset = true) → s.notify = true) ∧
    (s.globalExpired = true → s.urr = true) ∧
-   (c.oneway = false → s.reqSent = true → s.global = true ∨ s.globalExpired = true) ∧
+   (c.oneway = false → s.reqSent = true → s.global = true ∨ s.globalExpired = true ∨ s.direct = true) ∧
    (s.phase = .WaitNotify → s.reqSent = true ∨ c.oneway = true))
 
 /-- K19: the worker never sits at `End` without having cleaned -/
@@ -179,9 +185,9 @@ abbrev K22 (c : Cfg) (s : S) : Prop := c.oneway = false → s.streams.all (fun s
 /-- K23: a pending upstream reset means the client stream is gone; so does the retry phase -/
 abbrev K23 (s : S) : Prop := s.cleaned = false → (s.upReset = true ∨ s.phase = .Retry) → liveCount s.streams = 0
 
-/-- K24: while a retry is still possible the global timer is armed or has expired -/
+/-- K24: while a retry is still possible the global timer is armed or has expired (or a terminate reply is pending) -/
 abbrev K24 (c : Cfg) (s : S) : Prop := s.cleaned = false → c.oneway = false → s.reqSent = true → s.rs.isSome = true →
-  s.global = true ∨ s.globalExpired = true
+  s.global = true ∨ s.globalExpired = true ∨ s.direct = true
 /-- K25: while a retry is still possible no re-entry budget was used -/
 abbrev K25 (c : Cfg) (s : S) : Prop := s.cleaned = false → c.oneway = false → s.rs.isSome = true → s.pass = 0
 
